@@ -31,12 +31,12 @@ ASSUMPTIONS = [
 COMPONENTS = {"real": ["dali.memory.location.MemoryValue.write / write_raw, value_to_raw", "dali.memory.{oem,energy,diagnostics,maintenance,info} declarations",
                        "dali.gear.general / dali.device.general memory commands"],
               "stub": ["bus, control gear / control device memory (sim/busim.py)", "driver"]}
-PROBES = ["fault-answer-no", "fault-echo-other", "fault-garble", "fault-garble-same-bits", "fault-drop", "fault-dtr0-frozen", "fault-dtr0-stuck-once", "fault-stays-locked",
+PROBES = ["fault-answer-no", "fault-echo-other", "fault-garble", "fault-garble-same-bits", "fault-drop", "fault-dtr0-frozen", "fault-dtr0-stuck-once", "fault-dtr0-ran-ahead", "fault-stays-locked",
           "fault-odd-unlock-value", "fault-short-bank", "fault-foreign-frame", "readonly-refused", "device-addressing",
           "ignore-feedback", "short-string-write", "initially-unlocked", "value-level-write-int", "value-level-write-mask",
           "value-level-write-tmask", "value-level-write-str", "value-level-write-out-of-range", "raw-data-longer-than-the-value",
           "earlier-calls-in-same-process", "value-level-write-without-conversion", "bank-latch", "bank-unlatch",
-          "value-level-write-of-non-ascii-text", "value-level-write-str-bad"]
+          "value-level-write-of-non-ascii-text", "value-level-write-str-bad", "options-by-position"]
 DOCUMENTED = (MemoryLocationNotWriteable, MemoryWriteFailure, MemoryWriteError, ResponseError)
 
 
@@ -144,7 +144,7 @@ def expected_raw(v, via):
     return b + (b"\x00" if len(b) < n else b"")
 
 
-FAULT_KINDS = ["no", "other", "garble", "garble-same", "drop", "freeze", "freeze-at", "stays-locked", "odd-unlock", "short-bank", "foreign"]
+FAULT_KINDS = ["no", "other", "garble", "garble-same", "drop", "freeze", "freeze-at", "skip-at", "stays-locked", "odd-unlock", "short-bank", "foreign"]
 
 
 def _find_value(key, name):
@@ -233,6 +233,10 @@ def run_plan(plan):
         unit.freeze_dtr0 = True
     if fk == "freeze-at":
         unit.freeze_after.add(fi)
+    if fk == "skip-at":
+        # DTR0 runs ahead by one after this data write (a glitch, another controller's frame): every later
+        # byte lands one location further on - the echo cannot show it, only the DTR0 check at the end
+        unit.skip_after.add(fi)
     if fk == "stays-locked":
         bank.ignore_unlock = True
     if fk in ("no", "other", "garble", "garble-same"):
@@ -281,6 +285,10 @@ def run_plan(plan):
             kw.pop("allow_short_write")
             probes["value-level-write-" + via[0].lower()] = 1
             gen = v.write(addr, via[0] if via[0] in ("MASK", "TMASK") else via[1], **kw)
+        elif plans.rng_for(plan["seed"], PROP + "-call").random() < 0.3:
+            # the options by position, in the documented order (short write, force unlock, ignore feedback)
+            probes["options-by-position"] = 1
+            gen = v.write_raw(addr, raw, kw["allow_short_write"], kw["force_unlock"], kw["ignore_feedback"])
         else:
             gen = v.write_raw(addr, raw, **kw)
         sr = busim.run_sequence(gen, bus, answer_faults=answer_faults, cap=400, env=env, log=log)
@@ -327,7 +335,7 @@ def run_plan(plan):
     locs = [l.address for l in v.locations][:len(raw)]
     want = dict(zip(locs, raw))
     fired = bool(foreign_fired) or (fk in ("freeze", "stays-locked", "odd-unlock", "short-bank")) or \
-        any(c[4] for c in sr.commands) or (fk in ("no", "other", "garble", "garble-same", "freeze-at") and unit.mem_writes > fi)
+        any(c[4] for c in sr.commands) or (fk in ("no", "other", "garble", "garble-same", "freeze-at", "skip-at") and unit.mem_writes > fi)
     if not writable:
         probes["readonly-refused"] = 1
         if not (sr.status == "raise" and isinstance(sr.exc, MemoryValueNotWriteable)):
@@ -360,7 +368,8 @@ def run_plan(plan):
             V("silent-write-failure", "%s.%s: ignore_feedback write on a healthy unit did not store %s" % (
                 key, v.name, {hex(a): x for a, x in list(bad.items())[:4]}), site="ignore-feedback")
         others = [a for a in range(256) if a not in want and a != 2 and bank.cells[a] != before[bank.number][a]]
-        if others:
+        if others and not (fk == "skip-at" and plan["ignore_feedback"]):
+            # (a unit whose DTR0 runs ahead puts bytes elsewhere; a caller who asked to ignore feedback is not told)
             V("other-location-changed", "%s.%s fault %s: cells %s changed although not part of the value" % (
                 key, v.name, fault, [hex(a) for a in others[:6]]), site=fk or "fault-free")
         if other_bank.cells != before[other_bank.number]:
@@ -378,7 +387,7 @@ def run_plan(plan):
     if by_bank.cells != by_before:
         V("bystander-changed", "another unit's memory was modified")
     if fk:
-        probes["fault-" + {"no": "answer-no", "other": "echo-other", "garble-same": "garble-same-bits", "freeze": "dtr0-frozen", "freeze-at": "dtr0-stuck-once",
+        probes["fault-" + {"no": "answer-no", "other": "echo-other", "garble-same": "garble-same-bits", "freeze": "dtr0-frozen", "freeze-at": "dtr0-stuck-once", "skip-at": "dtr0-ran-ahead",
                            "odd-unlock": "odd-unlock-value", "foreign": "foreign-frame"}.get(fk, fk)] = 1 if fired else 0
     if plan["kind"] == "device":
         probes["device-addressing"] = 1
@@ -421,7 +430,7 @@ def run_seed(seed, tier):
     steps, nw = b["_steps"], b["_nwrites"]
     r = plans.rng_for(seed, PROP + "-variants")
     for fk in FAULT_KINDS:
-        if fk in ("no", "other", "garble", "garble-same", "freeze-at"):
+        if fk in ("no", "other", "garble", "garble-same", "freeze-at", "skip-at"):
             idxs = range(nw)
         elif fk in ("drop", "foreign"):
             idxs = range(steps + (1 if fk == "foreign" else 0))
